@@ -105,7 +105,7 @@ Definition is_reported (o : option res) : bool := match o with Some _ => true | 
 Fixpoint script_first_stop (rs : list rstep) : option rstep :=
   match rs with
   | [] => None
-  | r :: t => match status r with Unknown | TimedOut | RunnerErr => Some r | _ => script_first_stop t end
+  | r :: t => match status r with Unknown | TimedOut | RunnerErr | ESkipped => Some r | _ => script_first_stop t end
   end.
 Fixpoint find_skip (skip : Z) (rs : list rstep) (i : nat) : option nat :=
   match rs with
@@ -116,10 +116,11 @@ Fixpoint find_skip (skip : Z) (rs : list rstep) (i : nat) : option nat :=
               end
   end.
 (* a test that kills the script (no exit code) aborts the document; a timeout is attributed to the whole script;
-   otherwise the first divider that carries the skip code skips the document *)
+   a test that ends the script with the skip code ([ESkipped] here: plain `exit <skip code>`) skips the document at
+   the script level; otherwise the first divider that carries the skip code skips the document *)
 Definition exec_script (skip : Z) (rs : list rstep) : exec_result :=
   match script_first_stop rs with
-  | Some r => match status r with TimedOut => ExTimeout true [r] | _ => ExFailed 0 end
+  | Some r => match status r with TimedOut => ExTimeout true [r] | ESkipped => ExSkipped 0 | _ => ExFailed 0 end
   | None => match find_skip skip rs 0 with Some i => ExSkipped i | None => ExOk rs end
   end.
 
